@@ -186,7 +186,7 @@ def sampled_basic_views(shape, rng, tier):
     """The whole basic view domain of a shape; for the larger 3-d shapes of the quick tier a seeded
     sample of the full-length tuples (all shorter tuples, bare items, None, Ellipsis are kept)."""
     vs = list(basic_views(shape))
-    limit = 500 if tier == "quick" else 20000
+    limit = 400 if tier == "quick" else 3000
     if len(shape) == 3 and len(vs) > limit + 400:
         short = [v for v in vs if v in ("N", "E") or len(v[1]) < 3]
         long_ = [v for v in vs if v not in ("N", "E") and len(v[1]) == 3]
@@ -665,7 +665,7 @@ class AttrViews(Base):
                 if coords != "none":
                     names = [n for n in names if n.startswith("world") or n in ("stored", "pixel0")]
                 vs = sampled_basic_views(sh, rng, tier) + array_views(sh, rng, 8 if tier == "quick" else 24)
-                full = nd <= 2 or (tier == "thorough" and size <= 12)
+                full = nd <= 2 or (tier == "thorough" and size <= 8)
                 for i, v in enumerate(vs):
                     use = names if (full or view_kind(v) not in ("slices", "mixed", "ints")) else round_robin(names, 2, salt + i)
                     for n in use:
@@ -721,8 +721,8 @@ class MaskViews(Base):
                 if coords != "none":
                     names = ["range_world", "and_1"]
                 vs = sampled_basic_views(sh, rng, tier) + array_views(sh, rng, 8 if tier == "quick" else 24)
-                full = (nd == 1) or (tier == "thorough" and size <= 12)
-                per = (4 if nd == 2 else 3) if tier == "quick" else 10
+                full = (nd == 1) or (tier == "thorough" and size <= 6)
+                per = (4 if nd == 2 else 3) if tier == "quick" else 6
                 for i, v in enumerate(vs):
                     use = names if (full or view_kind(v) not in ("slices", "mixed", "ints")) else round_robin(names, per, salt + i)
                     for n in use:
@@ -800,9 +800,9 @@ class IndexedBase(Base):
             return ["N"]
         vs = list(basic_views(rsh))
         if len(vs) > 24:
-            keep = [v for v in vs if v in ("N", "E")] + rng.sample(vs, 12 if tier == "quick" else 120)
+            keep = [v for v in vs if v in ("N", "E")] + rng.sample(vs, min(len(vs), 10 if tier == "quick" else 40))
             vs = keep
-        return vs + array_views(rsh, rng, 3 if tier == "quick" else 12)
+        return vs + array_views(rsh, rng, 3 if tier == "quick" else 8)
 
 
 class IdxAttr(IndexedBase):
@@ -825,7 +825,7 @@ class IdxAttr(IndexedBase):
                         names = ["stored"] + ["iworld%d" % k for k in range(len(rsh))]
                     vs = self._views(rsh, rng, tier)
                     for i, v in enumerate(vs):
-                        for n in (names if tier == "thorough" or len(vs) < 6 else round_robin(names, 2, i)):
+                        for n in (names if len(vs) < 6 else round_robin(names, 2 if tier == "quick" else 3, i)):
                             yield [list(sh), coords, ix, ix1, n, v]
 
     def _cid(self, env, idd, name):
@@ -901,7 +901,7 @@ class IdxMask(IndexedBase):
                 ix1 = changed_indices(ix, sh, rng)
                 vs = self._views(rsh, rng, tier)
                 for i, v in enumerate(vs):
-                    for n in (names if tier == "thorough" and int(np.prod(sh)) <= 12 else round_robin(names, 3, i + len(ix) * 7)):
+                    for n in (names if tier == "thorough" and int(np.prod(sh)) <= 8 else round_robin(names, 3 if tier == "quick" else 4, i + len(ix) * 7)):
                         yield [list(sh), ix, ix1, n, v]
 
     def run_impl(self, case):
@@ -953,7 +953,7 @@ class IdxStat(Base):
     exhaustive = True
     budget_share = 0.8
 
-    WHATS = [["stat", "sum"], ["stat", "minimum"], ["stat", "maximum"], ["hist"]]
+    WHATS = [["stat", "sum"], ["stat", "minimum"], ["stat", "maximum"], ["hist"], ["stataxis", "sum"], ["stataxis", "maximum"]]
 
     def cases(self, tier, rng):
         m = 3 if tier == "quick" else 4
@@ -963,6 +963,10 @@ class IdxStat(Base):
                     continue
                 ix1 = changed_indices(ix, sh, rng)
                 for what in self.WHATS:
+                    if what[0] == "stataxis":
+                        if any(i is None for i in ix):
+                            yield [list(sh), ix, ix1, what, None]
+                        continue
                     for sub in (None, "ineq", "roi_pix_a", "slice_a"):
                         if tier == "quick" and sub not in (None, "ineq") and rng.random() < 0.6:
                             continue
@@ -987,6 +991,9 @@ class IdxStat(Base):
                 r = idd.compute_statistic(what[1], x, subset_state=st)
                 r = float(r)
                 outs.append("nan" if np.isnan(r) else q_sx(r))
+            elif what[0] == "stataxis":
+                r = np.asarray(idd.compute_statistic(what[1], x, axis=0), dtype=float)
+                outs.append(["nan" if np.isnan(v) else q_sx(v) for v in r.ravel().tolist()])
             else:
                 h = idd.compute_histogram([x], range=[(-0.5, 10.5)], bins=[11], subset_state=None if st is None else st.copy())
                 outs.append([int(c) for c in np.asarray(h).ravel().tolist()])
@@ -995,7 +1002,7 @@ class IdxStat(Base):
     def line(self, case, pyout):
         sh, ix0, ix1, what, sub = case
         env = env_for(sh, "none")
-        w = what if what[0] == "stat" else ["hist", 0, 11]
+        w = ["hist", 0, 11] if what[0] == "hist" else what
         return sx(["idxstat", [sh, ix0, ix1, canon_vals(env.xv), self._mask if sub is not None else None, w], pyout])
 
     def nontrivial(self, case, po):
